@@ -107,10 +107,10 @@ Section K126.
   Qed.
 
   Lemma reset_ok g : forall (Q : unit + rerr -> drv -> mon -> Prop) d m, okm m ->
-      (forall r m', okm m' -> (cm m' = CStby \/ (cm m' = CSleep /\ x_fam x = K127)) -> pin_err r -> Q r d m') ->
+      (forall r m', okm m' -> (cm m' = CStby \/ (cm m' = CSleep /\ x_fam x = K127)) -> (is_ok r -> lora_sel x m') -> pin_err r -> Q r d m') ->
       wp x (k_reset (kind126 g)) Q d m.
   Proof.
-    intros Q d m O HQ. cbn [k_reset kind126]. unfold iv, act1. cbn [wp mon_event]. apply HQ; [exact O|left; reflexivity|apply pin_okr].
+    intros Q d m O HQ. cbn [k_reset kind126]. unfold iv, act1. cbn [wp mon_event]. apply HQ; [exact O|left; reflexivity|intros _ F; discriminate F|apply pin_okr].
   Qed.
 
   Lemma getstatus_effect m : okm m ->
@@ -139,22 +139,26 @@ Section K126.
 
   Lemma ensure_ok g : forall dm (Q : unit + rerr -> drv -> mon -> Prop) d m, okm m ->
       (cm m = CSleep -> dm = MSleep \/ x_fam x = K127) -> (cm m = CDuty -> awake m = false -> is_duty dm = true) ->
-      (forall r m', okm m' -> le_valid m m' -> (cm m' = cm m \/ (cm m = CSleep /\ cm m' = CStby)) ->
-                    (is_ok r -> x_fam x = K126 \/ ready m -> ready m') -> pin_err r -> Q r d m') ->
+      (forall r m', okm m' -> le_valid m m' -> (cm m' = cm m \/ (cm m = CSleep /\ cm m' = CStby) \/ (dm = MSleep /\ cm m' = CSleep)) ->
+                    (is_ok r -> x_fam x = K126 \/ (ready m /\ dm <> MSleep) -> ready m') ->
+                    (is_ok r -> x_fam x = K127 -> dm = MSleep -> valid m' ILoraMode = true) -> pin_err r -> Q r d m') ->
       wp x (k_ensure_ready (kind126 g) dm) Q d m.
   Proof.
     intros dm Q d m O H1 H2 HQ. cbn [k_ensure_ready kind126]. unfold ensure_ready_126.
+    assert (NL : forall (r : unit + rerr) m', is_ok r -> x_fam x = K127 -> dm = MSleep -> valid m' ILoraMode = true) by (intros r m' _ F; discriminate F).
     destruct (match dm with MSleep | MRx (RxDuty _ _) => true | _ => false end) eqn:SD.
     - unfold spi_write, act1, iv. cbn [wp].
-      split; [apply HQ; [exact O|apply le_refl|left; reflexivity|intros []|apply pin_spi]|].
+      split; [apply HQ; [exact O|apply le_refl|left; reflexivity|intros []|apply NL|apply pin_spi]|].
       intros ts got Hm. apply segs_match_w1 in Hm. destruct Hm as [-> ->]. rewrite ev_w1 by discriminate.
       destruct (getstatus_effect m O) as [O' [L' [R' M']]].
-      split; [apply HQ; [exact O'|exact L'|exact M'|intros []|apply pin_busy]|].
-      apply HQ; [exact O'|exact L'|exact M'|intros _ _; exact R'|apply pin_okr].
+      assert (M3 : cm (spi126 x m [s6_OpCode_GetStatus; 0%N] []) = cm m \/ (cm m = CSleep /\ cm (spi126 x m [s6_OpCode_GetStatus; 0%N] []) = CStby) \/
+                   (dm = MSleep /\ cm (spi126 x m [s6_OpCode_GetStatus; 0%N] []) = CSleep)) by (destruct M' as [M'|M']; [left|right; left]; exact M').
+      split; [apply HQ; [exact O'|exact L'|exact M3|intros []|apply NL|apply pin_busy]|].
+      apply HQ; [exact O'|exact L'|exact M3|intros _ _; exact R'|apply NL|apply pin_okr].
     - unfold iv, act1. cbn [wp].
-      split; [apply HQ; [exact O|apply le_refl|left; reflexivity|intros []|apply pin_busy]|].
+      split; [apply HQ; [exact O|apply le_refl|left; reflexivity|intros []|apply NL|apply pin_busy]|].
       change (mon_event x m (TIv IvBusy)) with m.
-      apply HQ; [exact O|apply le_refl|left; reflexivity| |apply pin_okr]. intros _ _. split.
+      apply HQ; [exact O|apply le_refl|left; reflexivity| |apply NL|apply pin_okr]. intros _ _. split.
       + intros E. destruct (H1 E) as [-> |F]; [discriminate SD|discriminate F].
       + intros E. destruct (awake m) eqn:EA; [reflexivity|]. specialize (H2 E eq_refl). destruct dm as [| | |[n| |a b]| |]; try discriminate H2. discriminate SD.
   Qed.
@@ -315,8 +319,9 @@ Section K126.
     weak_spec x it_init126 (k_init (kind126 g) sw).
   Proof.
     intros HD HT Q d m O R HQ. cbn [k_init kind126]. unfold init_lora_126.
+    assert (NLS : forall m', lora_sel x m -> lora_sel x m') by (intros m' _ F; discriminate F).
     assert (FAILQ : forall e m', prog_le m m' -> plain_err e -> Q (inr e) d m').
-    { intros e m' [L1 [L2 [L3 L4]]] Pe. apply HQ; [exact L1|exact L2|exact L4|intros []|]. intros e0 E0. injection E0 as <-. exact Pe. }
+    { intros e m' [L1 [L2 [L3 L4]]] Pe. apply HQ; [exact L1|exact L2|exact L4|intros []| |apply NLS]. intros e0 E0. injection E0 as <-. exact Pe. }
     apply seq_plain with (E := plain_err) (want := if dc then [IRegulator] else []); [apply plain_spec_of, regulator_plain, HD|exact O|exact R| |exact FAILQ].
     intros [] m1 L1 V1. apply seq_plain with (E := plain_err) (want := []); [apply plain_spec_of, dio2_plain|apply L1|eapply prog_le_ready; eassumption| |].
     2:{ intros e m' L Pe. apply FAILQ; [eapply prog_le_trans; eassumption|exact Pe]. }
@@ -335,7 +340,7 @@ Section K126.
     destruct C4 as [C4 [A4 O4]].
     assert (R4 : ready m4). { destruct R as [Ra Rb]. split; [rewrite C4; exact Ra|rewrite C4, A4; exact Rb]. }
     assert (FAIL4 : forall e m', prog_le m4 m' -> plain_err e -> Q (inr e) d m').
-    { intros e m' [M1 [M2 [M3 M4]]] Pe. apply HQ; [congruence|congruence|exact M4|intros []|]. intros e0 E0. injection E0 as <-. exact Pe. }
+    { intros e m' [M1 [M2 [M3 M4]]] Pe. apply HQ; [congruence|congruence|exact M4|intros []| |apply NLS]. intros e0 E0. injection E0 as <-. exact Pe. }
     split; [apply FAIL4; [apply prog_le_refl, O4|repeat split; discriminate]|].
     apply seq_plain with (E := plain_err) (want := [ISync]); [apply plain_spec_of, syncw_plain|exact O4|exact R4| |exact FAIL4].
     intros [] m5 L5 V5. apply seq_plain with (E := plain_err) (want := [IBases]); [apply plain_spec_of, bases_plain|apply L5|eapply prog_le_ready; eassumption| |].
@@ -346,7 +351,7 @@ Section K126.
     intros [] m7 L7 _. pose proof (prog_le_trans _ _ _ L56 L7) as L57.
     apply (plain_spec_of x _ plain_err [] _ (retention_plain s6_Register_TxModulation)); [apply L57|eapply prog_le_ready; eassumption|].
     intros r m8 L8 _ E8. pose proof (prog_le_trans _ _ _ L57 L8) as L58. destruct L58 as [N1 [N2 [N3 N4]]].
-    apply HQ; [rewrite N1; exact C4|rewrite N2; exact A4|exact N4| |exact E8].
+    apply HQ; [rewrite N1; exact C4|rewrite N2; exact A4|exact N4| |exact E8|apply NLS].
     intros _ i Hi. unfold it_init126 in Hi. apply in_app_or in Hi. destruct Hi as [Hi|Hi]; [|apply in_app_or in Hi; destruct Hi as [Hi|Hi]].
     - cbn [In] in Hi. destruct Hi as [<-|[<-|[<-|[]]]].
       + apply N3. rewrite E4. reflexivity.
@@ -481,12 +486,13 @@ Section K126.
     - apply rx_ok.
     - apply cad_ok.
     - apply procirq_ok.
-    - (* cover_tx *) intros m V. apply forallb_forall. intros i Hi. apply V. unfold need, no_listen in Hi. cbn [x_fam x126 x_dcdc x_tcxo x_listen] in Hi.
+    - (* cover_tx *) intros m V _. apply forallb_forall. intros i Hi. apply V. unfold need, no_listen in Hi. cbn [x_fam x126 x_dcdc x_tcxo x_listen] in Hi.
       unfold it_init126. destruct dc, tc; cbn [app In] in Hi |- *; tauto.
-    - (* cover_rx *) intros m V. apply forallb_forall. intros i Hi. apply V. unfold need, no_listen in Hi. cbn [x_fam x126 x_dcdc x_tcxo x_listen] in Hi.
+    - (* cover_rx *) intros m V _. apply forallb_forall. intros i Hi. apply V. unfold need, no_listen in Hi. cbn [x_fam x126 x_dcdc x_tcxo x_listen] in Hi.
       unfold it_init126. destruct dc, tc; cbn [app In] in Hi |- *; tauto.
-    - (* cover_cad *) intros m V i Hi. apply V. unfold it_cad126 in Hi. unfold it_init126. destruct dc, tc; cbn [app In] in Hi |- *; tauto.
-    - (* cover_listen *) intros m LI V. apply forallb_forall. intros i Hi. apply V. unfold need in Hi. cbn [x_fam x126 x_dcdc x_tcxo x_listen] in Hi, LI.
+    - (* cover_cad *) intros m V _ i Hi. apply V. unfold it_cad126 in Hi. unfold it_init126. destruct dc, tc; cbn [app In] in Hi |- *; tauto.
+    - (* cover_listen *) intros m LI V _. apply forallb_forall. intros i Hi. apply V. unfold need in Hi. cbn [x_fam x126 x_dcdc x_tcxo x_listen] in Hi, LI.
       rewrite LI in Hi. unfold it_init126. destruct dc, tc; cbn [app In] in Hi |- *; tauto.
+    - (* cad_lora *) intros m _ F. discriminate F.
   Defined.
 End K126.
